@@ -158,7 +158,8 @@ def variants_of(pool, root):
 
 OPS = ['prim_call', 'simple_customize', 'complex_customize', 'child_attrs', 'child_attrs_all', 'variant_of_variant',
        'array_wrap', 'mandatory_array', 'mandatory_complex', 'mandatory_simple', 'subclass', 'append_field',
-       'insert_field', 'append_pending_field', 'append_to_derived_parent']
+       'insert_field', 'append_pending_field', 'append_to_derived_parent', 'variant_child_attrs_future',
+       'insert_pending_field']
 
 
 def apply_op(c, op, pool, step):
@@ -176,6 +177,8 @@ def apply_op(c, op, pool, step):
         out = c.run(P['Base'].customize, child_attrs={'a': dict(ge=1), 'b': dict(min_len=1)})
     elif op == 'child_attrs_all':
         out = c.run(P['Derived'].customize, child_attrs_all=dict(nullable=False))
+    elif op == 'variant_child_attrs_future':
+        out = c.run(P['Pending'].customize, child_attrs={'later': dict(max_len=2)}, min_occurs=1)
     elif op == 'variant_of_variant':
         out = c.run(P['V2'].customize, max_occurs=3)
     elif op == 'array_wrap':
@@ -188,12 +191,12 @@ def apply_op(c, op, pool, step):
         out = c.run(Mandatory, P['Str5'])
     elif op == 'subclass':
         out = c.run(type(ComplexModel), 'Sub' + tag, (P['Base'],), {'__namespace__': TNS, 'z': Unicode})
-    elif op in ('append_field', 'insert_field', 'append_pending_field', 'append_to_derived_parent'):
+    elif op in ('append_field', 'insert_field', 'append_pending_field', 'append_to_derived_parent', 'insert_pending_field'):
         name = {'append_field': 'n_' + tag, 'insert_field': 'i_' + tag, 'append_pending_field': 'future',
-                'append_to_derived_parent': 'p_' + tag}[op]
+                'append_to_derived_parent': 'p_' + tag, 'insert_pending_field': 'future'}[op]
         root = P['Base']
         ftype = Unicode if op != 'insert_field' else Integer
-        if op == 'insert_field':
+        if op in ('insert_field', 'insert_pending_field'):
             out = c.run(root.insert_field, 0, name, ftype)
         else:
             out = c.run(root.append_field, name, ftype)
@@ -203,10 +206,12 @@ def apply_op(c, op, pool, step):
             def chk(before, after):
                 bi = [k for k, _ in before['type_info']]
                 ai = [k for k, _ in after['type_info']]
-                if name in bi:          # already there (second append of the same name): overwritten in place
+                if name in bi:          # already there: append overwrites in place, insert moves it to the index
+                    if op in ('insert_field', 'insert_pending_field'):
+                        return ai == [name] + [x for x in bi if x != name]
                     return ai == bi
-                want = ([name] + bi) if op == 'insert_field' else (bi + [name])
-                rest_same = [x for x in after['type_info'] if x[0] != name] == before['type_info']
+                want = ([name] + bi) if op in ('insert_field', 'insert_pending_field') else (bi + [name])
+                rest_same = [x for x in after['type_info'] if x[0] != name] == [x for x in before['type_info'] if x[0] != name]
                 return ai == want and rest_same
             return chk
         for t in targets:
@@ -224,7 +229,8 @@ def apply_op(c, op, pool, step):
         exp['field'] = (name, ftype)
     else:
         raise KeyError(op)
-    if out.returned and op not in ('append_field', 'insert_field', 'append_pending_field', 'append_to_derived_parent'):
+    if out.returned and op not in ('append_field', 'insert_field', 'append_pending_field', 'append_to_derived_parent',
+                                   'insert_pending_field'):
         exp['new'] = out.value
     return out, exp
 
